@@ -234,11 +234,33 @@ def r8_variant_payload(rep, facts):
                   f'Table::try_from and Value::try_from then disagree on (or one of them rejects) a root newtype variant whose payload is not a struct', facts.loc(facts.body(dt)))
 
 
+def r10_variant_collectors(rep, facts, rid='C13/R10'):
+    R = rep.rule(rid, 'a variant\'s fields are collected like the fields of a plain struct / tuple: serialize_field of every SerializeStructVariant / SerializeTupleVariant impl of the '
+                 'workspace hands the field to the plain collector it wraps (serialize_field / serialize_element) and stores nothing itself — so a None field, a date-time field or '
+                 'an unsupported value is treated on this route exactly as in a plain struct, and as on the other routes', floor=6)
+    for imp in facts.impls:
+        tr = imp.get('trait') or ''
+        if tr not in ('serde::ser::SerializeStructVariant', 'serde::ser::SerializeTupleVariant'):
+            continue
+        for it in imp['items']:
+            if it['name'] != 'serialize_field' or not facts.has_body(it['def']):
+                continue
+            b = facts.body(it['def'])
+            names = [n.get('name') or last_seg(strip_generics((callee_all(n) or ['?'])[0])) for n in calls_in(b['body'])]
+            names = [last_seg(x) if x else x for x in names]
+            fw = [x for x in names if x in ('serialize_field', 'serialize_element')]
+            own = [x for x in names if x in ('insert', 'insert_formatted', 'push', 'push_formatted', 'try_from', 'serialize', 'entry', 'or_insert', 'extend')]
+            rep.check(R, f'{imp["self_ty"]}|{last_seg(tr)}', len(fw) == 1 and not own, f'-> inner.{fw[0] if fw else "?"}',
+                      f'`{it["def"]}` ' + (f'stores the field itself ({own})' if own else f'forwards to {fw}') + ' instead of handing it to the plain collector it wraps: a field that is None '
+                      '(or a date-time) in a variant is treated differently from the same field in a plain struct, and differently from the other encoding routes', facts.loc(b))
+
+
 def rules(rep, facts):
     feats = set(facts.crates.get('toml_edit', {}).get('features', []))
     if 'toml' not in facts.crates:
         return
     r8_variant_payload(rep, facts)
+    r10_variant_collectors(rep, facts)
     r1_wrappers(rep, facts)
     r7_value_passes(rep, facts)
     if 'toml_edit' in facts.crates and 'serde' in feats:
